@@ -1048,6 +1048,13 @@ def tree_case(draw):
         s = draw(S.expr(kind, draw(st.integers(2, 4)), frag))
         s = draw(G.enrich(s, floats=kind == "NUM", p_nest=1, p_neutral=1, p_const=2))
         s = G.sanitize(s, draw(st.integers(0, 6)))
+        if draw(st.integers(0, 7)) == 0:
+            # a denominator of 1 is neutral for / only: x // 1 and x % 1 are not x
+            one = ["Const", "int", 1]
+            s = draw(st.sampled_from((["FloorDiv", s, one], ["Remainder", s, one],
+                                      ["Quotient", s, one],
+                                      ["Sum", [["FloorDiv", ["Var", "r"], one], s]],
+                                      ["Product", [["Remainder", ["Var", "r"], one], s]])))
     return {"expr": s}
 
 
